@@ -12,6 +12,7 @@ import (
 	"net/rpc"
 	"os"
 	"os/exec"
+	"os/user"
 	"strconv"
 	"sync"
 	"syscall"
@@ -242,6 +243,18 @@ func vplugin(t *testing.T, proto string) *exec.Cmd {
 	return cmd
 }
 
+// usc returns a UnixSocketConfig naming the process's primary group (nil when it has no resolvable name).
+func usc(on bool) *plugin.UnixSocketConfig {
+	if !on {
+		return nil
+	}
+	g, err := user.LookupGroupId(strconv.Itoa(os.Getgid()))
+	if err != nil || g.Name == "" {
+		return nil
+	}
+	return &plugin.UnixSocketConfig{Group: g.Name}
+}
+
 func TestRace_Client(t *testing.T) {
 	r := rand.New(rand.NewSource(seed()))
 	var rmu sync.Mutex
@@ -258,6 +271,8 @@ func TestRace_Client(t *testing.T) {
 				AllowedProtocols: []plugin.Protocol{plugin.ProtocolNetRPC, plugin.ProtocolGRPC},
 				Logger:           hclog.NewNullLogger(),
 				Managed:          iter%3 == 2,
+				// sockets of brokered listeners are made group-writable for a group given by name (every second iteration)
+				UnixSocketConfig: usc(iter%2 == 0),
 			})
 			var wg sync.WaitGroup
 			run := func(f func()) { wg.Add(1); go func() { defer wg.Done(); jitter(r, &rmu); f() }() }
@@ -267,7 +282,12 @@ func TestRace_Client(t *testing.T) {
 					if p, err := cl.Client(); err == nil {
 						if raw, err := p.Dispense("kv"); err == nil {
 							raw.(kv.Store).Set(3)
-							raw.(kv.Store).Callback()
+							var cw sync.WaitGroup
+							for k := 0; k < 3; k++ { // brokered listeners opened by the host concurrently (distinct ids)
+								cw.Add(1)
+								go func() { defer cw.Done(); raw.(kv.Store).Callback() }()
+							}
+							cw.Wait()
 						}
 						p.Ping()
 					}
